@@ -5,7 +5,16 @@
     saved access-controller parameters, [H] = CID of the database manifest
     {name, type, access-controller address}, [types] = registered store types.
     Premises used (never axioms): the canonical text of a CID decodes to itself, content
-    addresses are canonical CIDs, content addressing is injective. *)
+    addresses are canonical CIDs, content addressing is injective.
+
+    Two mechanism switches.  [rd] (first argument of [determine_address], [addr_parse],
+    [parse_split], [is_valid]) = address.IsValid/Parse refuse an address one of whose raw parts
+    after the root is ".." (true = the code as it stands, fix: commit ad3ae9b,
+    [c18_rejects_dotdot_current]; false = the pinned commit).  [rc] = DetermineAddress rejects
+    a result whose root is not the manifest CID (true = the code as it stands,
+    [c14_root_checked_current]; false = the pinned commit).  Every theorem about
+    DetermineAddress below is stated for BOTH values of [rd]; the three theorems at the end
+    say what [rd] changes. *)
 From Orbit Require Import Model.Address Proofs.AddressProofs.
 Local Open Scope N_scope.
 
@@ -13,14 +22,14 @@ Local Open Scope N_scope.
     write list given the creator is irrelevant, with none given the result is the one for
     the list holding the creator's own id.  (Holds with and without the root check.) *)
 Theorem C14_function :
-  forall (cid_decode : N -> option N) (Hac : list N -> N) (H : list seg * N * N -> N) (types : list N),
+  forall (rd : bool) (cid_decode : N -> option N) (Hac : list N -> N) (H : list seg * N * N -> N) (types : list N),
     (forall (rc : bool) (c1 c2 : N) (name : list seg) (typ : N) (w : list N),
         w <> [] ->
-        determine_address cid_decode Hac H types rc c1 name typ w =
-        determine_address cid_decode Hac H types rc c2 name typ w) /\
+        determine_address rd cid_decode Hac H types rc c1 name typ w =
+        determine_address rd cid_decode Hac H types rc c2 name typ w) /\
     (forall (rc : bool) (c : N) (name : list seg) (typ : N),
-        determine_address cid_decode Hac H types rc c name typ [] =
-        determine_address cid_decode Hac H types rc c name typ [c]).
+        determine_address rd cid_decode Hac H types rc c name typ [] =
+        determine_address rd cid_decode Hac H types rc c name typ [c]).
 Proof. exact addr_function. Qed.
 Print Assumptions C14_function.
 
@@ -28,9 +37,9 @@ Print Assumptions C14_function.
     is the CID of the manifest written for exactly these inputs: the address is
     self-describing. *)
 Theorem C14_root_is_manifest :
-  forall (cid_decode : N -> option N) (Hac : list N -> N) (H : list seg * N * N -> N) (types : list N)
+  forall (rd : bool) (cid_decode : N -> option N) (Hac : list N -> N) (H : list seg * N * N -> N) (types : list N)
          (c : N) (name : list seg) (typ : N) (w : list N) (r : N) (p : list seg),
-    determine_address cid_decode Hac H types true c name typ w = Ok (r, p) ->
+    determine_address rd cid_decode Hac H types true c name typ w = Ok (r, p) ->
     r = manifest_cid Hac H c name typ w.
 Proof. exact addr_root_is_manifest. Qed.
 Print Assumptions C14_root_is_manifest.
@@ -38,26 +47,39 @@ Print Assumptions C14_root_is_manifest.
 (** With the root check, equal addresses come from equal inputs (name, type, effective
     write list), whoever computed them. *)
 Theorem C14_injective :
-  forall (cid_decode : N -> option N) (Hac : list N -> N) (H : list seg * N * N -> N) (types : list N),
+  forall (rd : bool) (cid_decode : N -> option N) (Hac : list N -> N) (H : list seg * N * N -> N) (types : list N),
     (forall x y : list seg * N * N, H x = H y -> x = y) ->
     (forall x y : list N, Hac x = Hac y -> x = y) ->
     forall (c1 c2 : N) (n1 n2 : list seg) (t1 t2 : N) (w1 w2 : list N) (a : N * list seg),
-      determine_address cid_decode Hac H types true c1 n1 t1 w1 = Ok a ->
-      determine_address cid_decode Hac H types true c2 n2 t2 w2 = Ok a ->
+      determine_address rd cid_decode Hac H types true c1 n1 t1 w1 = Ok a ->
+      determine_address rd cid_decode Hac H types true c2 n2 t2 w2 = Ok a ->
       n1 = n2 /\ t1 = t2 /\ effective_write c1 w1 = effective_write c2 w2.
 Proof. exact addr_injective. Qed.
 Print Assumptions C14_injective.
 
-(** Every produced address, checked or not, prints and parses back to the same root and
-    path. *)
+(** Every produced address, checked or not, produced with either version of IsValid, prints
+    and parses back (with either version of Parse, [rd']) to the same root and path.  The
+    path of a produced address comes out of path.Join, so it has no ".." (nor "." nor empty
+    segment) for the new test to refuse. *)
 Theorem C14_roundtrip :
-  forall (cid_decode : N -> option N) (Hac : list N -> N) (H : list seg * N * N -> N) (types : list N),
+  forall (rd : bool) (cid_decode : N -> option N) (Hac : list N -> N) (H : list seg * N * N -> N) (types : list N),
     (forall n c : N, cid_decode n = Some c -> cid_decode c = Some c) ->
-    forall (rc : bool) (c : N) (name : list seg) (typ : N) (w : list N) (a : N * list seg),
-      determine_address cid_decode Hac H types rc c name typ w = Ok a ->
-      addr_parse cid_decode (addr_string a) = Ok a.
+    forall (rd' rc : bool) (c : N) (name : list seg) (typ : N) (w : list N) (a : N * list seg),
+      determine_address rd cid_decode Hac H types rc c name typ w = Ok a ->
+      addr_parse rd' cid_decode (addr_string a) = Ok a.
 Proof. exact addr_roundtrip. Qed.
 Print Assumptions C14_roundtrip.
+
+(** More generally the round trip holds for exactly the addresses in normal form: a canonical
+    root and a path of plain segments.  (String() joins and cleans, so a path with an empty,
+    "." or ".." segment is printed without it and cannot come back.) *)
+Theorem C14_roundtrip_clean :
+  forall (cid_decode : N -> option N) (rd' : bool) (a : N * list seg),
+    cid_decode (fst a) = Some (fst a) ->
+    all_names (snd a) = true ->
+    addr_parse rd' cid_decode (addr_string a) = Ok a.
+Proof. exact addr_roundtrip_clean. Qed.
+Print Assumptions C14_roundtrip_clean.
 
 (** path.Clean of a rooted path is idempotent (used by the round trip). *)
 Theorem C14_clean_idempotent :
@@ -69,45 +91,94 @@ Print Assumptions C14_clean_idempotent.
     other normalisations of path.Join (empty and "." segments, leading and trailing
     slashes) only change the path part. *)
 Theorem C14_unchecked_same_without_dotdot :
-  forall (cid_decode : N -> option N) (Hac : list N -> N) (H : list seg * N * N -> N) (types : list N),
+  forall (rd : bool) (cid_decode : N -> option N) (Hac : list N -> N) (H : list seg * N * N -> N) (types : list N),
     (forall x : list seg * N * N, cid_decode (H x) = Some (H x)) ->
     forall (c : N) (name : list seg) (typ : N) (w : list N),
       no_dotdot name = true ->
-      determine_address cid_decode Hac H types false c name typ w =
-      determine_address cid_decode Hac H types true c name typ w.
+      determine_address rd cid_decode Hac H types false c name typ w =
+      determine_address rd cid_decode Hac H types true c name typ w.
 Proof. exact addr_unchecked_same_without_dotdot. Qed.
 Print Assumptions C14_unchecked_same_without_dotdot.
 
-(** This commit (no root check) is not injective: for any segment [c0] that is a CID — for
+(** Without the root check DetermineAddress is not injective (with either version of
+    IsValid: neither name is an address, and the ".." is cleaned away before Parse): for any segment [c0] that is a CID — for
     instance the manifest CID of another database — the two different names "../c0/y" and
     "./../c0/y" are accepted for every creator, registered type and write list and give the
     same address /orbitdb/c0/y.  Regression witness. *)
 Theorem C14_refuted_unchecked :
-  forall (cid_decode : N -> option N) (Hac : list N -> N) (H : list seg * N * N -> N) (types : list N)
+  forall (rd : bool) (cid_decode : N -> option N) (Hac : list N -> N) (H : list seg * N * N -> N) (types : list N)
          (c0 c0' y : N),
     cid_decode c0 = Some c0' ->
     exists n1 n2 : list seg,
       n1 <> n2 /\
       (forall (c typ : N) (w : list N),
           memN typ types = true ->
-          determine_address cid_decode Hac H types false c n1 typ w = Ok (c0', [SName y]) /\
-          determine_address cid_decode Hac H types false c n2 typ w = Ok (c0', [SName y])).
+          determine_address rd cid_decode Hac H types false c n1 typ w = Ok (c0', [SName y]) /\
+          determine_address rd cid_decode Hac H types false c n2 typ w = Ok (c0', [SName y])).
 Proof. exact addr_refuted_unchecked. Qed.
 Print Assumptions C14_refuted_unchecked.
 
 (** ... and not self-describing: some accepted name gets an address whose root is not the
     CID of its own manifest. *)
 Theorem C14_refuted_root_unchecked :
-  forall (cid_decode : N -> option N) (Hac : list N -> N) (H : list seg * N * N -> N) (types : list N),
+  forall (rd : bool) (cid_decode : N -> option N) (Hac : list N -> N) (H : list seg * N * N -> N) (types : list N),
     (forall x y : list seg * N * N, H x = H y -> x = y) ->
     forall (c0 c0' c typ : N) (w : list N),
       cid_decode c0 = Some c0' ->
       memN typ types = true ->
       exists (name : list seg) (r : N) (p : list seg),
-        determine_address cid_decode Hac H types false c name typ w = Ok (r, p) /\
+        determine_address rd cid_decode Hac H types false c name typ w = Ok (r, p) /\
         r <> manifest_cid Hac H c name typ w.
 Proof. exact addr_refuted_root_unchecked. Qed.
 Print Assumptions C14_refuted_root_unchecked.
+
+(** ** What the ".." test of IsValid changes *)
+
+(** With the test, a parsed address has no ".." in its path, and its printed form parses (with
+    either version) to the SAME root and the cleaned path: String(), and the cache directory
+    built the same way, designate the database of that root. *)
+Theorem C14_parsed_reprint :
+  forall cid_decode : N -> option N,
+    (forall n c : N, cid_decode n = Some c -> cid_decode c = Some c) ->
+    forall (s : list seg) (a : N * list seg),
+      addr_parse true cid_decode s = Ok a ->
+      no_dotdot (snd a) = true /\
+      (forall rd' : bool,
+          addr_parse rd' cid_decode (addr_string a) = Ok (fst a, clean_rooted (snd a))).
+Proof. exact parsed_reprint. Qed.
+Print Assumptions C14_parsed_reprint.
+
+(** Without it (pinned commit) the printed form of a parsed address could designate another
+    database: for CIDs [c0], [c1] the string "c0/../c1/y" parsed to root c0 and printed as
+    /orbitdb/c1/y.  The code as it stands refuses that string.  Regression witness. *)
+Theorem C14_refuted_parsed_reprint_untested :
+  forall (cid_decode : N -> option N) (c0 c0' c1 c1' y : N),
+    cid_decode c0 = Some c0' ->
+    cid_decode c1 = Some c1' ->
+    exists (s : list seg) (a : N * list seg),
+      addr_parse false cid_decode s = Ok a /\
+      fst a = c0' /\
+      addr_parse true cid_decode s = Err EBadInput /\
+      (forall rd' : bool, addr_parse rd' cid_decode (addr_string a) = Ok (c1', [SName y])).
+Proof. exact parsed_reprint_refuted_untested. Qed.
+Print Assumptions C14_refuted_parsed_reprint_untested.
+
+(** The visible consequence for DetermineAddress: a NAME "c0/x/.." ([c0] a CID) was refused as
+    being an address ("given database name is an address"); with the test it is not an
+    address, path.Join cleans it to "c0" and the result is the address (manifest, "c0"),
+    with or without the root check. *)
+Theorem C14_name_with_dotdot_not_address :
+  forall (cid_decode : N -> option N) (Hac : list N -> N) (H : list seg * N * N -> N) (types : list N),
+    (forall x : list seg * N * N, cid_decode (H x) = Some (H x)) ->
+    forall (c0 c0' x : N) (rc : bool) (c typ : N) (w : list N),
+      cid_decode c0 = Some c0' ->
+      memN typ types = true ->
+      let name := [SName c0; SName x; SDotDot] in
+      determine_address false cid_decode Hac H types rc c name typ w = Err EDenied /\
+      determine_address true cid_decode Hac H types rc c name typ w =
+      Ok (manifest_cid Hac H c name typ w, [SName c0]).
+Proof. exact name_with_dotdot_not_address. Qed.
+Print Assumptions C14_name_with_dotdot_not_address.
 
 (** Create is refused exactly when the local marker is present and overwrite is off; a
     local-only Open exactly when the marker is absent.  A create that proceeds leaves the
